@@ -34,6 +34,9 @@ class OpaqueText:
     def __bool__(self):
         return bool(symex.mkbool(lift_int(self.length) > 0))
 
+    def sym_len(self):
+        return self.length if isinstance(self.length, SInt) else SInt(lift_int(self.length))
+
 
 # the inserted strings carry what a careless insertion would mangle: a backslash-digit (group reference in a
 # replacement template), a backslash-letter (bad escape), a space and regex metacharacters
@@ -429,10 +432,10 @@ def concrete_oracle(plain, source, anns, out):
     return bad
 
 
-TAG_FILLS = ["", "<i>", "</i>", "<b>x</b>", "q<i>", "</i>q", "<em>", "</em>"]
+TAG_FILLS = ["", "<i>", "</i>", "<b><i>", "<b>x</b>", "q<i>", "</i>q", "<em>", "</em>", "</i></b>"]
 
 
-def candidates(w, cap=6000):
+def candidates(w, cap=12000):
     """concrete (plain, source, spans) realisations of a model.  Unchecked mode: one text of
     distinct characters.  skip/wrap: additionally texts in which style tags are placed in the
     segments between span boundaries / in the inserted source material (model-guided search:
@@ -643,7 +646,7 @@ def run_property(rep, pid):
         "fast_diff_match_patch.diff / difflib.SequenceMatcher.get_opcodes: any script of alternating equal / non-equal blocks with amounts >= 1 consistent with both text lengths (contract; realised and compared with the real engines on replay)",
         "is_balanced_html: arbitrary boolean per call (lxml is not modelled)",
         "re.finditer on the text (maybe_balance_style_tags): empty, or first/last match with spans inside the subject and the literal's width",
-        "re.sub('(<[^>]+>)', before\\1after): keeps every character, inserts the literals around <= 2 non-overlapping matches (pattern checked to be one capture group)",
+        "re.sub('(<[^>]+>)', before\\1after): keeps every character, inserts the literals around <= 2 non-overlapping matches (pattern checked to be one capture group; a repeated capture group is modelled as its last iteration)",
     ]
     findings = []
     runs = []
